@@ -591,6 +591,19 @@ oscore_derive_ctx(coap_context_t *c_context, coap_oscore_conf_t *oscore_conf) {
   return osc_ctx;
 
 error:
+  if (osc_ctx) {
+    /* The ids and the configured values still belong to oscore_conf */
+    while (osc_ctx->recipient_chain) {
+      oscore_recipient_ctx_t *rcp_ctx = osc_ctx->recipient_chain;
+
+      osc_ctx->recipient_chain = rcp_ctx->next_recipient;
+      coap_delete_bin_const(rcp_ctx->recipient_key);
+      coap_free_type(COAP_OSCORE_REC, rcp_ctx);
+    }
+    coap_delete_bin_const(osc_ctx->common_iv);
+  }
+  if (sender_ctx)
+    coap_delete_bin_const(sender_ctx->sender_key);
   coap_free_type(COAP_OSCORE_COM, osc_ctx);
   coap_free_type(COAP_OSCORE_SEN, sender_ctx);
   return NULL;
